@@ -108,7 +108,7 @@ func (e *cacheEnv) apply(c *flowh.Caches, ev cevent) (recs [][]ref.ExpField, unk
 	k := e.keys[ev.k]
 	dataSet := ref.Set{Kind: ref.SetRaw, RawID: k.id, RawBody: probeBody}
 	switch ev.kind {
-	case "ann", "ann+data", "data+ann":
+	case "ann", "ann+data", "data+ann", "data+ann+data":
 		t := e.tpl(ev.k, ev.d)
 		ts := ref.Set{Kind: ref.SetTemplates, Templates: []ref.Template{t}}
 		var m *ref.Msg
@@ -117,6 +117,8 @@ func (e *cacheEnv) apply(c *flowh.Caches, ev cevent) (recs [][]ref.ExpField, unk
 			m = e.msg(ts)
 		case "ann+data":
 			m = e.msg(ts, dataSet)
+		case "data+ann+data":
+			m = e.msg(dataSet, ts, dataSet)
 		default:
 			m = e.msg(dataSet, ts)
 		}
@@ -265,7 +267,7 @@ func cacheBFS(tier string) mck.Space {
 		var evs []cevent
 		for k := range env.keys {
 			for d := range env.defs {
-				evs = append(evs, cevent{"ann", k, d}, cevent{"ann+data", k, d}, cevent{"data+ann", k, d}, cevent{"insert", k, d})
+				evs = append(evs, cevent{"ann", k, d}, cevent{"ann+data", k, d}, cevent{"data+ann", k, d}, cevent{"data+ann+data", k, d}, cevent{"insert", k, d})
 			}
 			evs = append(evs, cevent{"data", k, 0})
 			if !env.v9 {
@@ -303,6 +305,12 @@ func cacheBFS(tier string) mck.Space {
 					wantUnknown = true
 				}
 				nref[ev.k] = ev.d
+			case "data+ann+data": // first data set under the old definition (if any), second under the new one
+				if cur[ev.k] >= 0 {
+					wantRecs = append(wantRecs, env.expected(cur[ev.k])...)
+				}
+				wantRecs = append(wantRecs, env.expected(ev.d)...)
+				nref[ev.k] = ev.d
 			case "data", "get":
 				if cur[ev.k] >= 0 {
 					wantRecs = env.expected(cur[ev.k])
@@ -322,7 +330,11 @@ func cacheBFS(tier string) mck.Space {
 				reported[sig] = true
 				c.Violation(sig, msg, map[string]interface{}{"history": descPath(hist), "event": ev.String(env.keys, env.defs), "reference_state_before": cur, "keys": keyNames(env.keys), "err": errs})
 			}
-			if ev.kind != "ann" && ev.kind != "insert" {
+			if ev.kind == "data+ann+data" {
+				if cls, m := flowh.CompareRecords(recs, wantRecs); cls != "" {
+					bad("event-"+ev.kind, ev.k, fmt.Sprintf("%s: %s (got %v)", ev.String(env.keys, env.defs), m, flowh.DescribeRecords(recs)))
+				}
+			} else if ev.kind != "ann" && ev.kind != "insert" {
 				if wantUnknown {
 					if len(recs) != 0 || !unknown {
 						bad("event-"+ev.kind, ev.k, fmt.Sprintf("%s: template not announced by this exporter, yet records=%v unknown=%v", ev.String(env.keys, env.defs), flowh.DescribeRecords(recs), unknown))
